@@ -93,6 +93,11 @@ pub fn hub_last_consumed_seq() -> u64 {
     HUB.with(|h| h.borrow().last_consumed_seq)
 }
 
+/// Number of sends and consumptions performed by the tasks so far.
+pub fn hub_seq() -> u64 {
+    HUB.with(|h| h.borrow().seq)
+}
+
 pub fn hub_refuse_connect(refuse: bool) {
     HUB.with(|h| h.borrow_mut().refuse_connect = refuse);
 }
